@@ -2,6 +2,7 @@ import RpmVerif.Lemmas.RpmValid
 import RpmVerif.Lemmas.BuilderSlots
 import RpmVerif.Lemmas.Cpio
 import RpmVerif.Props.C06
+import RpmVerif.Lemmas.SignE
 /-!
 # C09 — emitted packages satisfy rpm's structural rules
 
@@ -28,6 +29,9 @@ Theorems (all for ALL inputs of the stated shape; no bound on sizes, counts or l
 * `compressor_magic_valid` — the header names the compressor; the codec crates enter through `CodecMagic`
   (a compressed stream starts with its format's magic; exercised on every generated package, not proved).
 * `build_valid` — the whole statement: write → parse gives back the built package and `PackageValid` holds.
+* `sign_clear_valid_discharged`, `sigsOk_of_build` — the same with NOTHING assumed about the legacy tags: they are computed by
+  the model of `SignatureHeaderBuilder::build` (`Sign.sigBuilderBuild`: parse, `match` on the algorithm — table scraped from the
+  source by tools/gen/sig_algs.py —, encode), and every arm selects RPMSIGTAG_RSA / RPMSIGTAG_DSA (`Sign.legacyTagOf_mem_range`).
 * `history_valid` — a valid package (built here or by rpm) stays valid under every non-empty history of
   `sign` / `clear_signatures` calls: they replace the signature header by a valid one and touch nothing else.
 * `count_zero_rejected`, `xz_undeclared_rejected` — the two repaired defects are violations of the spec.
@@ -740,6 +744,50 @@ theorem history_valid (p : Package) (bytes0 arch : Bytes) (v : PackageValid byte
     by rw [hh, hc]; exact v.magic, by rw [hh]; exact v.rpmlib, by rw [hh]; exact v.cpio⟩
   exact sigPadding_written _ (by rw [hl]; exact wl) (by rw [hsig, signatureHeader_eq]; exact fromEntries_wf srec)
 
+
+/-! ## the legacy-tag condition of `SigsOk`, discharged from the source table (gap G7) -/
+section discharged
+open RpmVerif.Sign
+
+/-- what `SigsOk` asks of the signatures handed to `SignatureHeaderBuilder`, WITHOUT the condition on the legacy tags:
+those are computed by `build` itself (`Sign.sigBuilderBuild`, table scraped from the source) -/
+structure SigBytesOk (b64enc : Bytes → Bytes) (sigs : List Bytes) (sha : Bytes) : Prop where
+  raw : ∀ s ∈ sigs, s ≠ [] ∧ s.length < 4294967296
+  b64 : ∀ s ∈ sigs, StrOk (b64enc s)
+  count : sigs.length < 4294967296
+  shaOk : StrOk sha
+
+/-- **the tag condition of `SigsOk` is discharged**: whatever `build` accepts, it files under RPMSIGTAG_RSA or
+RPMSIGTAG_DSA (`legacyTagOf_range`) -/
+theorem sigsOk_of_build {pubAlg : Bytes → Option Nat} {b64enc : Bytes → Bytes} {sigs : List Bytes} {sha : Bytes}
+    {tr : List (Nat × Bytes × Bytes)} (ok : SigBytesOk b64enc sigs sha) (ht : sigTriples pubAlg b64enc sigs = .ok tr)
+    (hsize : (signatureHeader tr (some sha)).store.length < 268435456) : SigsOk tr sha := by
+  obtain ⟨hmap, hall⟩ := sigTriples_spec b64enc sigs tr ht
+  have hmem : ∀ x ∈ tr, x.2.1 ∈ sigs := fun x hx => by rw [← hmap]; exact List.mem_map_of_mem hx
+  refine ⟨?_, ?_, ?_, ?_, ok.shaOk, hsize⟩
+  · intro x hx
+    obtain ⟨⟨a, _, ha⟩, _⟩ := hall x hx
+    exact legacyTagOf_mem_range ha
+  · intro x hx; exact ok.raw _ (hmem x hx)
+  · intro x hx; rw [(hall x hx).2]; exact ok.b64 _ (hmem x hx)
+  · have : tr.length = sigs.length := by rw [← hmap, List.length_map]
+    rw [this]; exact ok.count
+
+/-- **sign / clear, with nothing assumed about tags**: every signature header the (fallible) model of
+`SignatureHeaderBuilder::build` returns is valid -/
+theorem sign_clear_valid_discharged {pubAlg : Bytes → Option Nat} {b64enc : Bytes → Bytes} {sigs : List Bytes} {sha : Bytes}
+    {h : Header} (ok : SigBytesOk b64enc sigs sha) (hb : sigBuilderBuild pubAlg b64enc sigs (some sha) = .ok h)
+    (hsize : h.store.length < 268435456) : HeaderValid 62 h := by
+  obtain ⟨tr, ht, rfl⟩ := sigBuilderBuild_ok hb
+  exact sign_clear_valid (sigsOk_of_build ok ht hsize)
+
+example : SigBytesOk id [[1, 2]] [48] ∧
+    sigBuilderBuild (fun _ => some 22) id [[1, 2]] (some [48]) = .ok (signatureHeader [(267, [1, 2], [1, 2])] (some [48])) := by
+  refine ⟨⟨?_, ?_, by decide, ?_⟩, Sign.sigBuild_one_ok id [48] (a := 22) rfl (by decide)⟩
+  · intro s hs; simp only [List.mem_singleton] at hs; subst hs; decide
+  · intro s hs; simp only [List.mem_singleton] at hs; subst hs; exact Sign.strOk_ascii _ (by decide)
+  · exact Sign.strOk_ascii _ (by decide)
+end discharged
 
 /-! ## the validator has teeth: the two repaired defects are violations -/
 
